@@ -140,11 +140,17 @@ impl Node {
     pub fn on_disk(consensus: &Consensus, dir: &Path, with_freezer: bool) -> Node {
         std::fs::create_dir_all(dir.join("header_map")).unwrap();
         let db_config = DBConfig { path: dir.join("db"), ..Default::default() };
-        let ancient = if with_freezer { Some(dir.join("ancient")) } else { None };
+        let ancient = if with_freezer {
+            std::fs::create_dir_all(dir.join("ancient")).unwrap();
+            Some(dir.join("ancient"))
+        } else {
+            None
+        };
         let handle = ckb_async_runtime::new_background_runtime();
         let (shared, mut pack) = SharedBuilder::new("hx", dir, &db_config, ancient, handle, consensus.clone())
             .expect("open db")
             .header_map_tmp_dir(Some(dir.join("header_map")))
+            .store_config(ckb_app_config::StoreConfig { freezer_enable: with_freezer, ..Default::default() })
             .build()
             .expect("build shared");
         let scope = ChainServiceScope::new(pack.take_chain_services_builder());
